@@ -496,20 +496,27 @@ def splice_fn(repo, file, item_path, sections, trait=None, nth=0, opts=(), canar
     # every occurrence `RECV.method(|PAT| BODY)` is written as the match that std defines the combinator to be, so BODY is ordinary
     # code of the function.  The receiver text must occur (else the anchor is lost).
     for dk in sorted(k for k in sections if k.startswith('desugar ')):
-        want = [t.text for t in rs.tokenize(sections[dk]) if t.kind not in ('ws', 'comment', 'doc')]
+        want_t = [t for t in rs.tokenize(sections[dk]) if t.kind not in ('ws', 'comment', 'doc')]
+        # (trailing commas are layout: see X7)
+        want = [t.text for i, t in enumerate(want_t) if not (t.text == ',' and i + 1 < len(want_t) and want_t[i + 1].kind == 'close')]
         if len(want) < 3 or want[-2] != '.' or want[-1] not in ('map', 'and_then', 'filter', 'any', 'all', 'find', 'find_map'):
             raise AnchorLost('template: //@%s must end in .map / .and_then / .filter / .any / .find / .find_map' % dk)
         method = want[-1]
         dk_words = dk.split()
         dk_id = dk_words[1]
-        on_result = len(dk_words) > 2 and dk_words[2] == 'result'      # `//@desugar K result`: the receiver is a Result (Ok / Err)
-        body_ci = [k for k in range(body_open + 1, body_close) if toks[k].kind not in ('ws', 'comment', 'doc')]
+        on_result = 'result' in dk_words[2:]      # `//@desugar K result`: the receiver is a Result (Ok / Err)
+        body_all = [k for k in range(body_open + 1, body_close) if toks[k].kind not in ('ws', 'comment', 'doc')]
+        body_ci = [k for i, k in enumerate(body_all) if not (toks[k].text == ',' and i + 1 < len(body_all) and toks[body_all[i + 1]].kind == 'close')]
         posm = {k: p for p, k in enumerate(body_ci)}
         hits = []
         for p0 in range(0, len(body_ci) - len(want) + 1):
             if toks[body_ci[p0]].text == want[0] and all(toks[body_ci[p0 + j]].text == want[j] for j in range(len(want))):
                 hits.append(p0)
-        # no occurrence: nothing to rewrite (the rewriting preserves meaning, so its absence needs no anchor)
+        # The rewriting preserves meaning, but the PROOF relies on it: a closure left in place makes obligations unprovable for a reason
+        # that has nothing to do with the property.  So a directive that matches nothing loses the anchor (exit 2) — unless it is marked
+        # `optional` (`//@desugar K optional`: a rewriting kept ready for a variant of the text, idle on the current one)
+        if not hits and 'optional' not in dk_words_of(dk):
+            raise AnchorLost('%s: //@%s matches nothing (receiver text changed?)' % (item_path, dk))
         for p0 in hits:
             pm = p0 + len(want) - 1            # code position of the method name
             if method in ('any', 'all') and pm + 3 < len(body_ci) and toks[body_ci[pm + 1]].text == '(' and toks[body_ci[pm + 2]].kind == 'ident' \
@@ -568,7 +575,7 @@ def splice_fn(repo, file, item_path, sections, trait=None, nth=0, opts=(), canar
                 rules['X2f-any'] = rules.get('X2f-any', 0) + 1
                 dropped.append('%s:%d Iterator::any with an inline closure written as the loop it abbreviates (X2f)' % (file, toks[body_ci[pm]].line))
                 continue
-            if method == 'filter' and len(dk_words) > 2 and dk_words[2] == 'count':
+            if method == 'filter' and 'count' in dk_words[2:]:
                 # X2f (count): `ITER.filter(|PAT| BODY).count()` written as the counting loop it abbreviates
                 kk = re.sub(r'\W', '_', dk_id)
                 after = [k for k in body_ci if k > call_close][:4]
@@ -581,7 +588,7 @@ def splice_fn(repo, file, item_path, sections, trait=None, nth=0, opts=(), canar
                 rules['X2f-count'] = rules.get('X2f-count', 0) + 1
                 dropped.append('%s:%d Iterator::filter(..).count() with an inline closure written as the loop it abbreviates (X2f)' % (file, toks[body_ci[pm]].line))
                 continue
-            if method == 'filter' and len(dk_words) > 2 and dk_words[2] == 'find_map':
+            if method == 'filter' and 'find_map' in dk_words[2:]:
                 # X2f (filter + find_map): `ITER.filter(|P1| B1).find_map(|P2| B2)` written as one loop — an element is offered to the
                 # second closure only when the first one (given a reference) holds
                 kk = re.sub(r'\W', '_', dk_id)
@@ -658,7 +665,9 @@ def splice_fn(repo, file, item_path, sections, trait=None, nth=0, opts=(), canar
         many = rk.startswith('replace_all ')
         if 'with ' + kk not in sections:
             raise AnchorLost('template: //@replace %s without //@with %s' % (kk, kk))
-        want = [t.text for t in rs.tokenize(sections[rk]) if t.kind not in ('ws', 'comment', 'doc')]
+        want_t = [t for t in rs.tokenize(sections[rk]) if t.kind not in ('ws', 'comment', 'doc')]
+        # a trailing comma (`,` right before a closing delimiter) is layout, not text: rustfmt adds and removes it with the line breaks
+        want = [t.text for i, t in enumerate(want_t) if not (t.text == ',' and i + 1 < len(want_t) and want_t[i + 1].kind == 'close')]
         # `$1`, `$2`, .. in the pattern are wildcards for one balanced run of tokens (a call argument): the replacement may
         # use them, so the arguments of a replaced call stay the real text
         pat = []
@@ -670,7 +679,8 @@ def splice_fn(repo, file, item_path, sections, trait=None, nth=0, opts=(), canar
             else:
                 pat.append(('t', want[j]))
                 j += 1
-        body_ci = [k for k in range(body_open + 1, body_close) if toks[k].kind not in ('ws', 'comment', 'doc')]
+        body_all = [k for k in range(body_open + 1, body_close) if toks[k].kind not in ('ws', 'comment', 'doc')]
+        body_ci = [k for i, k in enumerate(body_all) if not (toks[k].text == ',' and i + 1 < len(body_all) and toks[body_all[i + 1]].kind == 'close')]
 
         def match_at(p0):
             """-> (end code position inclusive, captures {n: (first_ci, last_ci)}) or None"""
@@ -842,6 +852,10 @@ def _first_qual(toks, item):
             continue
         break
     return first
+
+
+def dk_words_of(dk):
+    return dk.split()[2:]
 
 
 def _add_false(spec_text):
